@@ -20,6 +20,7 @@ from ..world import Violation, HarnessError
 from ..oracle import tcpclv4 as T
 from ..evidence import graph_evidence
 from .. import env as _env
+from .c17 import run_same_read  # noqa: F401  (adversarial message pairs in one read vs. two, judged here for equality)
 
 PROP = 'C07'
 
@@ -354,7 +355,11 @@ def run_long(params, known):
     '''Single large messages: cuts at every position within 3 octets of a field
     or message boundary plus CHUNK-sized pieces; the graph over that cut set is
     explored completely (every pair of cut positions is an edge).'''
-    body = bytes((i * 7 + 3) & 0xFF for i in range(params['size']))
+    size = params['size']
+    if params.get('fit'):
+        # the whole XFER_SEGMENT message is exactly `fit` octets (one or two full reads of the endpoint)
+        size = params['fit'] - len(T.enc_segment(3, 1, b'', [T.ext_total_length(params['fit'])]))
+    body = bytes((i * 7 + 3) & 0xFF for i in range(size))
     ch = T.enc_contact(0)
     init = T.enc_sess_init(0, 2 ** 32, 2 ** 32, b'n' * params.get('nodeid', 5))
     seg = T.enc_segment(3, 1, body, [T.ext_total_length(len(body))])
@@ -437,10 +442,16 @@ def scenarios(tier):
     for size in sizes:
         out.append(dict(name='long-%d' % size, kind='enum', runner='run_long',
                         params=dict(name='long-%d' % size, size=size, nodeid=300 if size == 256 else 5), weight=10 ** 5))
+    out.append(dict(name='adversarial-pairs', kind='enum', runner='run_same_read', params=dict(name='adversarial-pairs', prop=PROP), weight=10 ** 5))
+    for fit in (10240, 20480):
+        out.append(dict(name='long-fit-%d' % fit, kind='enum', runner='run_long',
+                        params=dict(name='long-fit-%d' % fit, size=0, fit=fit, nodeid=5), weight=10 ** 5))
     return out
 
 
 ASSUMPTIONS = [
+    'adversarial pairs: every contact-phase message followed by any message of the C17 alphabet, and every ordered pair of in-session messages of it, in one read and in two: same octets written, same signals, same closing',
+    'long streams also with a segment message of exactly 10240 / 20480 octets (the size of one / two reads of the endpoint), delivered in one piece among others',
     'one real endpoint per role; the peer is scripted with octets produced by the independent encoder',
     'the endpoint runs to quiescence after each read (zero-time computation)',
     'the two body octets of MSG_REJECT are read in the order the pinned tests fix',
